@@ -188,6 +188,25 @@ theorem consumed_all_without_quorum (vals : List (Nat × Val)) : consumedOf 0 {}
 /-- if no valid value was supplied the answer is not-found — never an invalid or mis-keyed record -/
 theorem none_admitted_not_found (q : Nat) : finalValue (run q []) = none := rfl
 
+/-- the value `GetValue` returns was supplied (and admitted, hence valid and keyed for the request) by local storage
+    or a responder: never a value nobody sent -/
+theorem final_value_supplied (q : Nat) (vals : List (Nat × Val)) (v : Val) (h : finalValue (run q vals) = some v) :
+    ∃ f, (f, v) ∈ vals :=
+  emitted_valid q vals v (List.mem_of_getLast? h)
+
+/-- not-found is answered exactly when no valid value was supplied: for every quorum, one valid value is enough -/
+theorem not_found_iff_nothing_supplied (q : Nat) (vals : List (Nat × Val)) :
+    finalValue (run q vals) = none ↔ vals = [] := by
+  constructor
+  · intro h
+    cases vals with
+    | nil => rfl
+    | cons x xs =>
+      have hx : x ∈ consumedOf q {} (x :: xs) := by simp [consumedOf]
+      obtain ⟨b, hb, _⟩ := final_is_best q (x :: xs) x hx
+      rw [h] at hb; cases hb
+  · rintro rfl; rfl
+
 /-! ### public keys -/
 
 /-- what the peer itself (or a DHT responder) returns under `/pk/<peer>` -/
